@@ -1142,6 +1142,9 @@ class Interp:
                 _target_names(t, names)
         for nm in sorted(names):
             for i, cl in enumerate(c.asserts.get(nm, [])):
+                if cl.startswith("ghost:"):
+                    self.exec_ghost(cl[6:], env)
+                    continue
                 self.path.prove(self.eval_spec(cl, env), "%s/assert-after:%s#%d" % (c.short, nm, i), "assert", where=cl)
 
     def ex_AnnAssign(self, s, env):
